@@ -74,7 +74,8 @@ class VEnum:
     def spec(self):
         rows = []
         for i, (ident, skip, _e, aliases) in enumerate(self.variants):
-            rows.append("(v %s %s)" % ("skip" if skip else "keep", " ".join(hexs(n) for n in self.names(i))))
+            kind = "skip" if skip else ("hide" if ident in self.hidden else "keep")
+            rows.append("(v %s %s)" % (kind, " ".join(hexs(n) for n in self.names(i))))
         return "(enum %s)" % " ".join(rows)
 
     def rust(self):
